@@ -22,7 +22,6 @@ pub struct Fail {
 
 #[derive(Clone, Debug, Default)]
 pub struct Info {
-	pub paths: usize,
 	pub raised_to_minimum: bool,
 	/// a raise to a later hop's minimum pushed an earlier hop above its limit (the allowed exception)
 	pub exemption_used: bool,
@@ -57,7 +56,7 @@ pub fn allowed_paths(q: &Query) -> usize {
 
 pub fn validate(q: &Query, edges: &[Edge], r: &RRoute) -> (Vec<Fail>, Info) {
 	let mut fails = Vec::new();
-	let mut info = Info { paths: r.paths.len(), ..Default::default() };
+	let mut info = Info::default();
 
 	if r.paths.is_empty() {
 		fail(&mut fails, "empty-route", "route has no paths".into());
